@@ -1325,6 +1325,20 @@ theorem names_of_pairwise {S : List Pkg} (hd : S.Pairwise (fun a b => a.name ≠
       · exact absurd hn.symm (hx p h1)
       · exact ih hxs h1 h2
 
+/-- the statement aimed at, for ALL universes (provides and virtual names included): the driver's classifier is
+complete — a resolution whose class is `unlisted` round-trips exactly.  OPEN: proved below for universes without
+provides (`relock_unlisted_exact_partial`); with provides it is exercised, not proved (the provides families of
+harness/suite_lock.go search it for a counterexample on every run: Go = Impl and a failing round trip of class
+`unlisted` is a VIOLATION).  What a proof needs beyond the invariant of Lemmas/RelockSucc.lean: candidates for a virtual
+name are not confined to members, so "the pick is a member" has to come from `compare_prefers_existing` /
+`minFunc_prefers` (every member is in `existing`); `disqualifyConflicts` and `pick` act on the members' provides (two
+members providing one versioned virtual disqualify each other); `constrain` on `virt>=x` disqualifies unversioned
+providers. -/
+def RelockClassesComplete : Prop :=
+  ∀ (c : Cfg) (w : List Text) (dq0 : List Nat) (r : Resolution), resolve c w dq0 = .ok r → C02.IdsDistinct c.u →
+    EntriesReadBack w r.install → relockClass c.u w r.install = "unlisted" →
+    ∃ r', resolve c (lockOf w r.install) [] = .ok r' ∧ sameMembers r'.install r.install
+
 /-- T `relock_unlisted_exact_partial` (completeness of F09a–F09h on the no-provides territory): for every successful
 resolution `r` of any world in a universe without provides whose ids are distinct, if the driver's classifier says
 `unlisted` — no pin lost, valid original without violated conflict, parsable versions, no install_if, unique
